@@ -14,6 +14,9 @@ Structural clauses decided (cardillo/solver/statics.py):
                             self.nt = len(self.load_steps) = number of rows of self.x; row i is written from the fsolve result of
                             load level load_steps[i]; every returned slice starts at row 0 and ends at i (early stop, failed step
                             dropped) or i + 1: returned index interval is contained in the solved one
+ R7 initial point of the arc-length path
+                            the first returned point pairs the initial state (q0, la_c0, la_g0, la_N0) with the load parameter of
+                            the vector the algorithm treats as the last converged point (self.xk), not with another load level
  R5 stored-row isolation    (K11, sa/alias.py) no returned point shares memory with a buffer that is modified in place after the
                             point was stored: "every point returned" is the point that was solved for
 """
@@ -42,6 +45,8 @@ def run(ctx):
     rep.rule("C23.R4", "loud early stop (C21 engine)", 2)
     rep.rule("C23.R5", "stored points are not modified after they were stored (may-alias analysis)", 1)
     alias.report(rep, "C23.R5", ctx.repo, [(ST, "Newton"), (ST, "Riks")])
+    rep.rule("C23.R7", "Riks: state and load parameter of the first returned point belong to the same point (self.xk)", 1)
+    riks_first_point(ctx)
     rep.rule("C23.R6", "every returned Newton load step has been solved at its own load level (index intervals)", 12)
     newton_rows(ctx)
     for cname, rname, jname in (("Newton", "fun", "jac"), ("Riks", "R", "J")):
@@ -167,6 +172,48 @@ def _resolve_ranges(fn, expr, depth=0):
     return None
 
 
+def riks_first_point(ctx):
+    rep = ctx.rep
+    fn = ctx.repo.get(ST, "Riks.solve")
+    init = ctx.repo.get(ST, "Riks.__init__")
+    C = f"{ST}:Riks.solve"
+    # the vector of the initial converged point: self.xk = np.concatenate((self.q0, ..., <load>))
+    xk = [n for n in ast.walk(init) if isinstance(n, ast.Assign) and norm_src(n.targets[0]) == "self.xk" and isinstance(n.value, ast.Call)
+          and (dotted(n.value.func) or "").endswith("concatenate") and n.value.args and isinstance(n.value.args[0], (ast.Tuple, ast.List))]
+    if len(xk) != 1:
+        raise AnalysisError(f"{ST}:Riks.__init__: `self.xk = np.concatenate((...))` not found")
+    comps = [norm_src(e) for e in xk[0].value.args[0].elts]
+    load0 = xk[0].value.args[0].elts[-1]
+    # load value of that vector: np.array([c]) / [c]
+    lv = load0
+    if isinstance(lv, ast.Call) and lv.args:
+        lv = lv.args[0]
+    if isinstance(lv, (ast.List, ast.Tuple)) and len(lv.elts) == 1:
+        lv = lv.elts[0]
+    want = norm_src(lv)
+    # initial rows of the result lists
+    first = {}
+    for n in fn.body:
+        if isinstance(n, ast.Assign) and isinstance(n.value, ast.List) and len(n.value.elts) == 1 and isinstance(n.targets[0], ast.Name):
+            first[n.targets[0].id] = n.value.elts[0]
+    ret = [n for n in ast.walk(fn) if isinstance(n, ast.Return) and isinstance(n.value, ast.Call) and dotted(n.value.func) == "Solution"]
+    if not ret:
+        raise AnalysisError(f"{C}: return Solution(...) not found")
+    tkw = next((k.value for k in ret[0].value.keywords if k.arg == "t"), None)
+    tname = next((w.id for w in ast.walk(tkw) if isinstance(w, ast.Name) and w.id in first), None) if tkw is not None else None
+    state_ok = all(norm_src(first[k]) in comps for k in first if k != tname)
+    if tname is None or not state_ok:
+        rep.ok("C23.R7", C, "initial rows are not the components of self.xk in a form the analysis reads (no verdict)", verdict="unknown", trivial=True)
+        return
+    got = norm_src(first[tname])
+    same = got == want or (got in ("0", "0.0") and want in ("0", "0.0")) or got in ("self.xk[-1]", "float(self.xk[-1])")
+    if same:
+        rep.ok("C23.R7", C, f"first point = components of self.xk = ({', '.join(comps[:-1])}; load {want})")
+    else:
+        rep.bad("C23.R7", C, first[tname], f"the first returned point pairs the state ({', '.join(comps[:-1])}) of self.xk, whose load parameter is {want}, with the load parameter "
+                f"`{got}`: that state is the equilibrium of load {want}, so the returned point violates equilibrium by the whole load `{got}`", f"{ST}:{first[tname].lineno}")
+
+
 def newton_rows(ctx):
     rep = ctx.rep
     fn = ctx.repo.get(ST, "Newton.solve")
@@ -221,23 +268,50 @@ def newton_rows(ctx):
         rep.ok("C23.R6", C, f"self.x[{var}] = {solname}.x on every iteration (top level of the loop, after the solve)")
     else:
         rep.bad("C23.R6", C, sv, f"the result of the solve is not written to self.x[{var}] on every iteration", f"{ST}:{sv.lineno}")
-    # -- c. returned slices
-    for ret in [n for n in ast.walk(fn) if isinstance(n, ast.Return) and isinstance(n.value, ast.Call) and dotted(n.value.func) == "Solution"]:
-        in_loop = any(ret is w for w in ast.walk(loop))
+    # -- c. returned slices (a return may delegate to a helper method that builds the Solution from a row count)
+    for call, in_loop, subst, where in solution_sites(ctx, fn, loop):
         want_hi = var if in_loop else f"{var} + 1"
-        for sub in [w for w in ast.walk(ret) if isinstance(w, ast.Subscript) and norm_src(w.value) in ("self.x", "self.load_steps")]:
+        alt_hi = None if in_loop else "self.nt"  # after the complete loop i + 1 == self.nt (a. and the loop bounds)
+        for sub in [w for w in ast.walk(call) if isinstance(w, ast.Subscript) and norm_src(w.value) in ("self.x", "self.load_steps")]:
             sl = sub.slice.elts[0] if isinstance(sub.slice, ast.Tuple) else sub.slice
             if not isinstance(sl, ast.Slice):
                 rep.bad("C23.R6", C, sub, "returned rows are not selected by a slice", f"{ST}:{sub.lineno}")
                 continue
-            lo = None if sl.lower is None else norm_src(sl.lower)
-            hi = None if sl.upper is None else norm_src(sl.upper)
-            if lo in (None, "0") and hi == want_hi and sl.step is None:
-                rep.ok("C23.R6", C, f"{'early' if in_loop else 'final'} return: {norm_src(sub)} = rows 0 .. {want_hi} - 1, all solved"
-                       + ("" if in_loop else " (and the failed row is excluded in the early return)"))
+            lo = None if sl.lower is None else subst(norm_src(sl.lower))
+            hi = None if sl.upper is None else subst(norm_src(sl.upper))
+            if lo in (None, "0") and hi in (want_hi, alt_hi) and hi is not None and sl.step is None:
+                rep.ok("C23.R6", C, f"{'early' if in_loop else 'final'} return{where}: {norm_src(sub)} = rows 0 .. {hi} - 1, all solved"
+                       + ("" if not in_loop else " (the failed row is excluded)"))
             else:
-                rep.bad("C23.R6", C, sub, f"the {'early' if in_loop else 'final'} return selects rows [{lo or 0}:{hi}] but the solved rows are [0:{want_hi}]"
+                rep.bad("C23.R6", C, sub, f"the {'early' if in_loop else 'final'} return{where} selects rows [{lo or 0}:{hi}] but the solved rows are [0:{want_hi}]"
                         + (" (the early return must drop the unconverged row)" if in_loop else ""), f"{ST}:{sub.lineno}")
+
+
+def solution_sites(ctx, fn, loop):
+    """[(Solution(...) call, inside the load-step loop?, substitution of helper parameters, label)] for every return of fn."""
+    cls = ctx.repo.get(ST, "Newton")
+    methods = {m.name: m for m in cls.body if isinstance(m, ast.FunctionDef)}
+    out = []
+    for ret in [n for n in ast.walk(fn) if isinstance(n, ast.Return) and isinstance(n.value, ast.Call)]:
+        in_loop = any(ret is w for w in ast.walk(loop))
+        call = ret.value
+        d = dotted(call.func) or ""
+        if d == "Solution":
+            out.append((call, in_loop, lambda x: x, ""))
+            continue
+        if d.startswith("self."):
+            name = d.split(".", 1)[1]
+            helper = methods.get(name) or next((m for k, m in methods.items() if k.endswith(name.lstrip("_")) and name.startswith("__")), None)
+            if helper is None:
+                continue
+            params = [a.arg for a in helper.args.args][1:]
+            amap = {p: norm_src(a) for p, a in zip(params, call.args)}
+            amap.update({k.arg: norm_src(k.value) for k in call.keywords if k.arg})
+            for r2 in [n for n in ast.walk(helper) if isinstance(n, ast.Return) and isinstance(n.value, ast.Call) and dotted(n.value.func) == "Solution"]:
+                out.append((r2.value, in_loop, (lambda m: (lambda x: m.get(x, x)))(amap), f" (through {d})"))
+    if not out:
+        raise AnalysisError(f"{ST}:Newton.solve: no return that builds a Solution was found")
+    return out
 
 
 MUTANTS = [
@@ -272,7 +346,13 @@ MUTANTS += [
     dict(id="c23-r6-3", what="Newton.solve's early return includes the failed load step again", file=ST,
          old="                    q=self.x[:i, : self.split_x[0]],", new="                    q=self.x[: i + 1, : self.split_x[0]],", expect=["C23.R6", "C23.R4"]),
 ]
+MUTANTS += [
+    dict(id="c23-r7-orig", canary=True, what="Riks: first returned point labelled with la_arc0 (original defect)", file=ST,
+         old="        la_arc = [self.xk[-1]]  # the initial state belongs to the load level of xk\n", new="        la_arc = [self.la_arc0]\n", expect="C23.R7"),
+]
 NEUTRAL = [
+    dict(id="c23-n3", what="Riks: first load parameter written as the constant of xk", file=ST,
+         old="        la_arc = [self.xk[-1]]  # the initial state belongs to the load level of xk\n", new="        la_arc = [0.0]\n"),
     dict(id="c23-n2", what="Newton.solve: range(self.nt) instead of range(0, self.nt)", file=ST,
          old="        pbar = range(0, self.nt)\n", new="        pbar = range(self.nt)\n"),
     dict(id="c23-n1", canary=True, what="Riks stores copies and updates the predictor in place", file=ST,
